@@ -384,6 +384,38 @@ pub struct NodeCfg {
     pub alt_name: Option<String>,
     pub config: anemo::Config,
     pub bind: Option<SocketAddr>,
+    /// install a (pass-through, counting) user `outbound_request_layer`
+    pub outbound_layer: Option<Arc<AtomicUsize>>,
+}
+
+/// Pass-through outbound layer that counts the requests it sees.
+#[derive(Clone)]
+pub struct CountLayer(pub Arc<AtomicUsize>);
+
+#[derive(Clone)]
+pub struct CountSvc<S>(S, Arc<AtomicUsize>);
+
+impl<S> tower::Layer<S> for CountLayer {
+    type Service = CountSvc<S>;
+    fn layer(&self, inner: S) -> Self::Service {
+        CountSvc(inner, self.0.clone())
+    }
+}
+
+impl<S, R> tower::Service<R> for CountSvc<S>
+where
+    S: tower::Service<R>,
+{
+    type Response = S::Response;
+    type Error = S::Error;
+    type Future = S::Future;
+    fn poll_ready(&mut self, cx: &mut Context<'_>) -> Poll<Result<(), Self::Error>> {
+        self.0.poll_ready(cx)
+    }
+    fn call(&mut self, r: R) -> Self::Future {
+        self.1.fetch_add(1, Ordering::SeqCst);
+        self.0.call(r)
+    }
 }
 
 impl NodeCfg {
@@ -394,6 +426,7 @@ impl NodeCfg {
             alt_name: None,
             config: default_config(),
             bind: None,
+            outbound_layer: None,
         }
     }
 }
@@ -542,6 +575,9 @@ impl World {
             .private_key(cfg.key);
         if let Some(alt) = &cfg.alt_name {
             b = b.alternate_server_name(alt.clone());
+        }
+        if let Some(counter) = &cfg.outbound_layer {
+            b = b.outbound_request_layer(CountLayer(counter.clone()));
         }
         let net = b.start(svc)?;
         let peer_id = net.peer_id();
